@@ -66,6 +66,14 @@ CLAIMS = {
          "Proved: the counting fact behind every bounded walk added to the library - pairwise distinct in-range blocks number at most n, so a step budget of n is never exhausted by a cycle-free chain and always by a cycle. Decided per explored image: each pointer field (hash slots, nextSameHash, extension, nextDirC, parent, firstData, nextData, realEntry, bitmap pointers) of each metadata block redirected to itself / its predecessor / the root / another block, singly and in pairs, and cyclic PART/FSHD/LSEG lists; the read-only API runs with a budget of 3*volume+200 device reads per call and a wall-clock alarm.",
          "Termination of the C loops: per explored image with an explicit read budget; the theorem justifies the budget, it is not about the C code.",
          "pointer-redirect exploration with a read budget + Coq pigeonhole bound", "DESIGN.md section 5 C11"),
+ "C17": ("exploration",
+         "Proved (regenerated layouts): the block structs have no padding and the endian-swap table covers every byte of each block kind, so a cleared-then-filled struct reaches the device fully determined. Decided per explored history: all formatting calls (DD/HD, hardfiles incl. more than 25 bitmap pages, partitioned disk; several flavour bytes) and file / namespace / directory-cache histories run twice (thorough: three times) with different heap and stack pre-fill bytes and a pinned clock; the images must be byte-identical and the call results equal.",
+         "Partial by nature (which C objects start uninitialised is not a Gallina fact): two-prefill differential exploration; theorems cover layout only. Stack pre-fill reaches 48 KiB below the API call.",
+         "two-prefill differential exploration + Coq proof of padding-free layouts", "DESIGN.md section 5 C17, section 11"),
+ "C19": ("fault_enumeration",
+         "Proved: the interpretation of programs (Base/Prog.v) is against an arbitrary device - any read may fail and return any buffer, any write may fail - so containment (C13) and read-only (C12) hold under every fault schedule; a refused access returns non-zero. Enumerated on the implementation: for every call of the target groups (sequential/positioned reads across block and extension boundaries, listings/lookups via hash tables and cache, overwrite, create, mkdir/delete/move, truncate/comment) one run per device read and per device write the call performs, with exactly that transfer failing (garbage left in the buffer); judged: no crash (part of the runs under AddressSanitizer), read calls return a prefix of the true bytes or an error, bystander files read back correctly after the fault clears and after remount; flavours OFS/FFS/FFS-DIRCACHE (thorough: all six).",
+         "Fault enumeration per call of fixed target groups (quick: sample of 14 per group), not over all histories. The content of a file whose own write was interrupted is not judged.",
+         "single-fault enumeration through the native-device interface + Coq any-device theorems", "DESIGN.md section 5 C19"),
 }
 
 def main():
